@@ -2,6 +2,7 @@
 #![allow(clippy::type_complexity)]
 
 pub mod build;
+pub mod custom;
 pub mod gen;
 pub mod known;
 pub mod model;
